@@ -23,3 +23,23 @@ Example C08_F11_witness :
                      OLeave 0; OSeat 2; OJoin 3 0; OSeat 3; OLeave 4; ONext] in
   playable_count s = 3%nat /\ sm_dealer s = sm_sb s.
 Proof. vm_compute. split; reflexivity. Qed.
+
+(* the blinds rule after a successful move to the next hand, in the final state s'.  rest = the seats
+   clockwise after the dealer.  With three or more seats able to play when the blinds are placed: the small
+   blind is the first playable seat of s' after the dealer and the big blind the first after the small blind.
+   With exactly two: the dealer is the small blind and the big blind is the first playable seat after the
+   dealer.  (When exactly two could play at that moment but seats behind the big blind are re-activated by
+   the same call, s' has more than two playable seats although the dealer is the small blind: that is the
+   known finding F11, see the witness below.) *)
+Theorem C08_blinds_rule :
+  forall s s', sm_next s = (s', SOk) ->
+    exists d, sm_dealer s' = Some d /\
+      let rest := tl (normalized s' d) in
+      let two_handed := playable_count (fst (next_dealer s)) = 2%nat in
+      (two_handed /\ sm_sb s' = Some d /\
+       exists pre bb post, rest = pre ++ bb :: post /\ sm_bb s' = Some bb /\ pl s' bb = true /\ forall y, In y pre -> pl s' y = false) \/
+      (~ two_handed /\
+       exists pre sb mid bb post, rest = pre ++ sb :: mid ++ bb :: post /\ sm_sb s' = Some sb /\ sm_bb s' = Some bb /\
+         pl s' sb = true /\ pl s' bb = true /\ forall y, In y (pre ++ mid) -> pl s' y = false).
+Proof. exact sm_next_rule. Qed.
+Print Assumptions C08_blinds_rule.
